@@ -1,7 +1,7 @@
 (* Proofs about Prep/Model.v: tokenisation, first line, command-line rewrite. *)
 From Coq Require Import String.
 From Coq Require Import List NArith ZArith Bool Lia.
-From NV Require Import Lib.Val Lib.Res Gen.Prep Prep.Model.
+From NV Require Import Lib.Val Lib.Res Gen.Prep Prep.Model Prep.ProofsNum.
 Import ListNotations.
 Open Scope N_scope.
 
@@ -240,4 +240,105 @@ Proof.
         -- cbn [app] in E. injection E as -> E.
            destruct (IH _ _ _ _ _ E) as [p [m [q ->]]]. exists (y :: p), m, q. reflexivity.
       * destruct (IH _ _ _ _ _ E) as [p [m [q ->]]]. exists (x :: p), m, q. reflexivity.
+Qed.
+
+(* ------------------------------------------------------------------ running it again *)
+Lemma forallb_nonspace : forall w, forallb (fun c => negb (is_space c)) w = true -> Forall nonspace w.
+Proof.
+  intros w H. apply Forall_forall. intros c Hc. rewrite forallb_forall in H.
+  apply negb_true_iff. auto.
+Qed.
+
+Lemma in_join : forall ws c, In c (join [SP] ws) -> c = SP \/ exists w, In w ws /\ In c w.
+Proof.
+  induction ws as [|w r IH]; intros c H; [destruct H|].
+  cbn [join] in H. destruct r as [|x r'].
+  - right. exists w. split; [left; reflexivity|assumption].
+  - apply in_app_or in H. destruct H as [H|H].
+    + right. exists w. split; [left; reflexivity|assumption].
+    + cbn [app] in H. destruct H as [H|H]; [left; auto|].
+      destruct (IH c H) as [E|[w' [A B]]]; [left; assumption|].
+      right. exists w'. split; [right; assumption|assumption].
+Qed.
+
+Lemma join_clean : forall ws c, Forall word ws -> In c (join [SP] ws) -> c = SP \/ is_space c = false.
+Proof.
+  intros ws c Hw H. destruct (in_join ws c H) as [E|[w [A B]]]; [left; assumption|right].
+  rewrite Forall_forall in Hw. destruct (Hw w A) as [_ Hn]. rewrite Forall_forall in Hn. apply Hn, B.
+Qed.
+
+Lemma filter_idem : forall (f : list N -> bool) l, filter f (filter f l) = filter f l.
+Proof.
+  induction l as [|x l IH]; [reflexivity|]. cbn [filter]. destruct (f x) eqn:E; [|assumption].
+  cbn [filter]. rewrite E, IH. reflexivity.
+Qed.
+
+Lemma word_ip_dhcp : word ip_dhcp.
+Proof. split; [discriminate|apply forallb_nonspace; reflexivity]. Qed.
+
+Lemma word_nbdroot : forall host name, Forall nonspace host -> Forall nonspace name ->
+  word (nbdroot_param host name).
+Proof.
+  intros host name Hh Hn. split.
+  - change (nbdroot_param host name) with (110 :: (str "bdroot="%string ++ host ++ str "/"%string ++ name)).
+    discriminate.
+  - unfold nbdroot_param. repeat (apply Forall_app; split); try assumption;
+      apply forallb_nonspace; reflexivity.
+Qed.
+
+Lemma word_root : forall n, word (root_param n).
+Proof.
+  intro n. split.
+  - change (root_param n) with (114 :: (str "oot=/dev/nbd0p"%string ++ show_base 10 n)). discriminate.
+  - unfold root_param. apply Forall_app. split; [apply forallb_nonspace; reflexivity|].
+    apply show_base_nonspace. lia.
+Qed.
+
+Lemma keep_ip : keep_param ip_dhcp = true. Proof. reflexivity. Qed.
+Lemma keep_nbdroot : forall h s, keep_param (nbdroot_param h s) = true. Proof. reflexivity. Qed.
+Lemma keep_root : forall n, keep_param (root_param n) = false. Proof. reflexivity. Qed.
+
+Theorem cmdline_reapply : forall text host name n,
+  Forall nonspace host -> Forall nonspace name ->
+  exists rest,
+    rewrite_cmdline host name n text =
+      join (str " "%string) ([ip_dhcp; nbdroot_param host name; root_param n] ++ rest) /\
+    rewrite_cmdline host name n (rewrite_cmdline host name n text) =
+      join (str " "%string) ([ip_dhcp; nbdroot_param host name; root_param n] ++
+                             [ip_dhcp; nbdroot_param host name] ++ rest).
+Proof.
+  intros text host name n Hh Hn.
+  set (rest := filter keep_param (split_ws (first_line (univ_nl text)))).
+  exists rest.
+  assert (E1 : rewrite_cmdline host name n text =
+               join [SP] ([ip_dhcp; nbdroot_param host name; root_param n] ++ rest)).
+  { unfold rewrite_cmdline. rewrite prepend_eq. reflexivity. }
+  split; [exact E1|]. rewrite E1.
+  set (P := [ip_dhcp; nbdroot_param host name; root_param n]).
+  assert (Hw : Forall word (P ++ rest)).
+  { apply Forall_app. split.
+    - apply Forall_cons; [apply word_ip_dhcp|].
+      apply Forall_cons; [apply word_nbdroot; assumption|].
+      apply Forall_cons; [apply word_root|apply Forall_nil].
+    - apply Forall_forall. intros w Hin. apply filter_In in Hin. destruct Hin as [Hin _].
+      pose proof (split_words_clean (first_line (univ_nl text))) as Hc.
+      rewrite Forall_forall in Hc. auto. }
+  assert (Hcr : ~ In CR (join [SP] (P ++ rest))).
+  { intro H. destruct (join_clean _ _ Hw H); discriminate. }
+  assert (Hlf : ~ In LF (join [SP] (P ++ rest))).
+  { intro H. destruct (join_clean _ _ Hw H); discriminate. }
+  unfold rewrite_cmdline at 1. rewrite prepend_eq.
+  rewrite (univ_nl_id _ Hcr).
+  rewrite first_line_unfold, (proj1 (cut_first_unique _ [] Hlf)).
+  rewrite (split_join _ Hw). rewrite filter_app.
+  unfold P. cbn [filter]. rewrite keep_ip, keep_nbdroot, keep_root.
+  unfold rest. rewrite filter_idem. reflexivity.
+Qed.
+
+(* ... and therefore the rewrite is not idempotent: a second run repeats two parameters *)
+Theorem cmdline_not_idempotent : exists text host name n,
+  rewrite_cmdline host name n (rewrite_cmdline host name n text) <> rewrite_cmdline host name n text.
+Proof.
+  exists (str "quiet"%string), (str "h"%string), (str "s"%string), 2.
+  intro E. vm_compute in E. discriminate E.
 Qed.
